@@ -311,6 +311,28 @@ fn combinators<const N: usize>(rng: &mut Rng, w: &mut impl std::io::Write) {
     writeln!(w, "AC {} {} {} {} | {} | {} | {}", N, hex(&content), ri, ops.join(","), results.join(","), hex(b.readable()), hex(&sink)).unwrap();
 }
 
+/// long runs of polls on ONE value (counters, budgets): 300 one-byte reads, then 300 write/read pairs
+fn long_run<const N: usize>(w: &mut impl std::io::Write) -> usize {
+    let mut b: AsyncFixedBuf<N> = AsyncFixedBuf::new();
+    let fill: Vec<u8> = (0..N - 100).map(|i| b'a' + (i % 26) as u8).collect();
+    b.write_bytes(&fill).unwrap();
+    let mut s = observe(&mut b);
+    let mut n = 0;
+    for _ in 0..300 {
+        s = apply(&mut b, &s, &Op::PollRead(0, 1, None), w);
+        n += 1;
+    }
+    for i in 0..300 {
+        s = apply(&mut b, &s, &Op::PollWrite(vec![b'0' + (i % 10) as u8]), w);
+        s = apply(&mut b, &s, &Op::PollRead(1, 1, Some(0)), w);
+        if i % 64 == 63 {
+            s = apply(&mut b, &s, &Op::Shift, w);
+        }
+        n += 2;
+    }
+    n
+}
+
 /// the constructors and `into_inner` (`T0` lines, same format as the blocking harness)
 fn ctors<const N: usize>(w: &mut impl std::io::Write) -> usize {
     let mems: Vec<Vec<u8>> = vec![(0..N).map(|i| 0x61 + (i % 26) as u8).collect(), vec![0u8; N], vec![0xffu8; N]];
@@ -339,7 +361,8 @@ fn ctors<const N: usize>(w: &mut impl std::io::Write) -> usize {
 
 pub fn run(thorough: bool, seed: u64, w: &mut impl std::io::Write) {
     let nc = ctors::<0>(w) + ctors::<1>(w) + ctors::<2>(w) + ctors::<7>(w) + ctors::<64>(w) + ctors::<300>(w);
-    eprintln!("STAT at constructors={}", nc);
+    let lr = long_run::<512>(w);
+    eprintln!("STAT at constructors={} long_run_polls={}", nc, lr);
     let r0 = explore::<0>(w);
     let r1 = explore::<1>(w);
     let r2 = explore::<2>(w);
